@@ -117,6 +117,9 @@ func c05Cases(tier string) []SchedCase {
 		out = append(out, SchedCase{Case: Case{Op: Op{Text: `{t{boom name}}`}, Plan: planOf("marshal:boom@t", "panic"), Yield: true, Cancel: true}, Transport: tr, Name: tr + " marshal panic", Bound: &zero})
 		out = append(out, SchedCase{Case: Case{Op: Op{Text: `{t{id ... @defer{boom}}}`}, Plan: planOf("marshal:boom@t", "panic"), Yield: true, Cancel: true}, Transport: tr, Name: tr + " marshal panic in deferred payload", Bound: &zero})
 	}
+	// two operations in flight on one websocket connection that the SERVER then closes
+	out = append(out, SchedCase{Case: Case{Op: Op{Text: `{t{name}}`}, Yield: true, Cancel: true}, Transport: "ws2", Name: "ws2 {t{name}} | two operations, server-side close", Bound: &one})
+	out = append(out, SchedCase{Case: Case{Op: Op{Text: `subscription{tick{id}}`}, Yield: true, Cancel: true}, Transport: "ws2", Name: "ws2 subscription{tick{id}} | two operations, server-side close", Bound: &zero})
 	// a websocket session that never initialises (InitTimeout set)
 	out = append(out, SchedCase{Case: Case{Op: Op{Text: `{str}`}, Yield: true, Cancel: true}, Transport: "ws-timeout", Name: "ws-timeout silent client"})
 	for _, tr := range trs {
@@ -228,7 +231,7 @@ func (si *schedInst) Body() {
 		srv.AddTransport(transport.MultipartMixed{})
 		req.Header.Set("Accept", "multipart/mixed")
 	}
-	if si.sc.Transport == "ws" || si.sc.Transport == "ws-timeout" {
+	if si.sc.Transport == "ws" || si.sc.Transport == "ws-timeout" || si.sc.Transport == "ws2" {
 		si.serveWebsocket(ctx, srv, body)
 		in.Done = true
 		cancel()
@@ -465,7 +468,7 @@ func (si *schedInst) checkTermination(x *explore.Exec) (string, string) {
 	case "blocked":
 		what := strings.Join(x.Out.Blocked, "; ")
 		cls := blockClass(x.Out.Blocked)
-		if !x.Out.MainDone && x.Out.EnvPending && (si.sc.Transport == "ws" || si.sc.Transport == "ws-timeout") {
+		if !x.Out.MainDone && x.Out.EnvPending && (si.sc.Transport == "ws" || si.sc.Transport == "ws-timeout" || si.sc.Transport == "ws2") {
 			// a websocket session legitimately waits for its peer / its init timeout
 			return "", ""
 		}
@@ -641,7 +644,23 @@ func (si *schedInst) serveWebsocket(ctx context.Context, srv *handler.Server, pa
 	si.rw = hrw.RW
 	req := rig.UpgradeRequest("graphql-transport-ws").WithContext(ctx)
 	vrt.Go("ws-client", func() {
-		if si.sc.Transport == "ws" {
+		if si.sc.Transport == "ws2" {
+			// two operations in flight, then a frame that makes the SERVER close the connection
+			vrt.Yield("client-send init")
+			conn.Feed(rig.ClientFrame(rig.OpText, []byte(`{"type":"connection_init"}`)))
+			vrt.Yield("client-send subscribe 1")
+			conn.Feed(rig.ClientFrame(rig.OpText, []byte(`{"type":"subscribe","id":"1","payload":`+string(params)+`}`)))
+			vrt.Yield("client-send subscribe 2")
+			conn.Feed(rig.ClientFrame(rig.OpText, []byte(`{"type":"subscribe","id":"2","payload":`+string(params)+`}`)))
+			vrt.Yield("client-send invalid frame")
+			conn.Feed(rig.ClientFrame(rig.OpText, []byte(`{"type":`)))
+			vrt.Point("client awaits close", nil, func() int {
+				if conn.Closed {
+					return 1
+				}
+				return 0
+			})
+		} else if si.sc.Transport == "ws" {
 			vrt.Yield("client-send init")
 			conn.Feed(rig.ClientFrame(rig.OpText, []byte(`{"type":"connection_init"}`)))
 			vrt.Yield("client-send subscribe")
